@@ -287,6 +287,60 @@ def check_property(prop, tier, seed0):
         tdir = os.path.join(outdir, "traces")
         t1 = time.time()
         res = run_traces(binary, scen, seeds, tdir)
+        # witness-guided executions: behaviours of the model that reach a listed guard state, replayed
+        # into the real code (tools/witness.py); their traces are validated like all others
+        seed_env = {}
+        wrec = []
+        if scen.get("witness"):
+            import witness
+            for gi, (wname, gpath, info) in enumerate(witness.make_guides(scen, timeout=cfgp.get("mc_timeout", {}).get(tier, 1500), log=log)):
+                info = dict(info)
+                if gpath:
+                    gseeds = [9000000 + seed0 * 10007 % 100000 * 10 + gi * 1000 + j for j in range(1, (4 if tier == "quick" else 12) + 1)]
+                    for gs in gseeds:
+                        seed_env[gs] = {"VRT_GUIDE": gpath}
+                    gres = [run_one(binary, scen, gs, tdir, seed_env[gs]) for gs in gseeds]
+                    done = 0
+                    for (gtr, _, _) in gres:
+                        try:
+                            done += int('"guide_done"' in open(gtr, errors="replace").read())
+                        except OSError:
+                            pass
+                    info.update({"guided_executions": len(gseeds), "followed_to_the_end": done})
+                    res = res + gres
+                    seeds = seeds + gseeds
+                wrec.append(info)
+        # targeted stalls: for every (function, field) READ of tracked memory that ordinary executions of
+        # the scenario perform inside the listed functions, executions in which the thread performing its
+        # k-th such read is parked until nobody else can run (VRT_STALL): the maximal delay between taking
+        # a snapshot and using it
+        if scen.get("stall"):
+            st = scen["stall"]
+            pairs = []
+            for (tr0, _, _) in res[:12]:
+                try:
+                    for line in open(tr0, errors="replace"):
+                        if '"fn"' not in line or '"a"' not in line:
+                            continue
+                        e = json.loads(line)
+                        if e.get("k") in ("R", "VR", "AL") and e.get("fn") in st["fns"] and "." in e.get("a", ""):
+                            pr = (e["fn"], e["a"].rsplit(".", 1)[1])
+                            if pr not in pairs:
+                                pairs.append(pr)
+                except (OSError, ValueError):
+                    pass
+            sseeds = []
+            for pi, (fn, fld) in enumerate(pairs):
+                for k in range(1, st.get("occ", 2) + 1):
+                    for j in range(st.get("seeds", {}).get(tier, 1) if isinstance(st.get("seeds"), dict) else st.get("seeds", 1)):
+                        ss = 8000000 + (seed0 * 10007 % 1000) * 1000 + len(sseeds)
+                        seed_env[ss] = {"VRT_STALL": f"{fn}:{fld}:{k}"}
+                        sseeds.append(ss)
+            with cf.ThreadPoolExecutor(max_workers=PAR) as ex:
+                sres = list(ex.map(lambda ss: run_one(binary, scen, ss, tdir, seed_env[ss]), sseeds))
+            res = res + sres
+            seeds = seeds + sseeds
+            wrec.append({"stall_points": [f"{a}:{b}" for a, b in pairs], "stall_executions": len(sseeds)})
         t_run = time.time() - t1
         t1 = time.time()
         traces, meta = [], []
@@ -301,7 +355,7 @@ def check_property(prop, tier, seed0):
             bad = [b for b in bad if b[0] not in scen.get("allow", [])]
             if bad:
                 # confirm by re-running the same seed
-                tr2, rc2, _ = run_one(binary, scen, seed, tdir + "_confirm")
+                tr2, rc2, _ = run_one(binary, scen, seed, tdir + "_confirm", seed_env.get(seed))
                 bad2 = prefilter(tracecheck.load_ndjson(tr2)) if os.path.exists(tr2) else []
                 if [b[0] for b in bad2] == [b[0] for b in bad]:
                     nbad += 1
@@ -321,6 +375,8 @@ def check_property(prop, tier, seed0):
         srec = {"scenario": sname, "executions": len(res), "direct_oracle_failures": nbad}
         if too_long:
             srec["oracle_only_too_long"] = too_long
+        if wrec:
+            srec["witness_guided"] = wrec
         if traces and not scen.get("no_validate"):
             chunk = 400
             accepted_total = 0
